@@ -23,6 +23,7 @@
    only): construction (_assign_tracklet_ids), the node actions, UserSwapPredecessors, undo / redo. *)
 From Coq Require Import ZArith List Bool.
 From FT Require Import Base.Dict Model.Edit Model.EditExec Proofs.EditInv Proofs.EditWalk Proofs.EditGlobal Proofs.EditTrk.
+From FT Require Proofs.EditSwap.
 Import ListNotations.
 Open Scope Z_scope.
 
@@ -140,6 +141,12 @@ Theorem C04_frame_add_edge : forall st u v force top a st',
 Proof. exact user_add_edge_frame. Qed.
 
 (* ---- non-vacuity: ex4 = 1 (t=0) divides into 2, 3 (t=1); 2 -> 4 (t=2); tracks 1 / 2 on {2,4} / 3 ---- *)
+(* UserSwapPredecessors keeps the track-id invariant (composition of two cuts and two joins) *)
+Theorem C04_step_swap : forall st n1 n2 a st', W_dict st -> W_forest st ->
+  W_trk st -> EditTrk.trk_bounded st -> trk_act (ft st) = true ->
+  user_swap st n1 n2 = Ok a st' -> W_trk st' /\ EditTrk.trk_bounded st'.
+Proof. exact EditSwap.swap_trk. Qed.
+
 Example C04_ex4_hypotheses :
   W_dict ex4 /\ W_forest ex4 /\ W_trk ex4 /\ W_book ex4 /\ trk_bounded ex4 /\ trk_act (ft ex4) = true.
 Proof. exact (conj ex4_W_dict (conj ex4_W_forest (conj ex4_W_trk (conj ex4_W_book (conj ex4_trk_bounded eq_refl))))). Qed.
@@ -176,3 +183,4 @@ Print Assumptions C04_core_add_edge.
 Print Assumptions C04_step_add_edge_global.
 Print Assumptions C04_frame_delete_edge.
 Print Assumptions C04_frame_add_edge.
+Print Assumptions C04_step_swap.
